@@ -92,8 +92,8 @@ OUTSIDE = [
 ASSUMPTIONS = ['uint8 element type: sums of products are compared modulo 256 (wrap-around), which identifies the set of summed products']
 CLAIM = dict(
  text='index::shape_matmul equals NumPy\'s matmul shape rule (acceptance and result) for every pair of shapes of dim 1..4 with extents 1..4 (all batch-broadcast patterns, 1-d promotion on either side). '
-      'With symbolic extents 1..4 (operand dims enumerated: 1-d/2-d, trace 2-d/3-d) the result SHAPES of outer, vecdot, trace, dot, inner, kron and tensordot (axes 1 / 2) through the real view compositions equal NumPy\'s. '
-      'For the enumerated constant operand shapes, with all uint8 operand data and the output index symbolic, view::matmul, outer, trace, kron, vecdot, dot, inner and tensordot (axes 1 / 2) return NumPy\'s '
+      'With symbolic extents 1..4 (operand dims enumerated: 1-d/2-d/3-d incl. a 1-d left operand with a 2-d / 3-d right operand for dot, trace 2-d/3-d) the result SHAPES of outer, vecdot, trace, dot, inner, kron and tensordot (axes 1 / 2) through the real view compositions equal NumPy\'s. '
+      'For the enumerated constant operand shapes (incl. batch matmul of operands with different dim), with all uint8 operand data and the output index symbolic, view::matmul, outer, trace, kron, vecdot, dot, inner and tensordot (axes 1 / 2) return NumPy\'s '
       'result shape and the defining sum of products over exactly the contracted index range.',
  note='Element level: per-query constant shapes (quick: matmul (1,3)x(3,1), (2,3)x(3,2), batch (2,1,2)x(2,2) and (1,2,2)x(2,2,1); outer (2)x(3), (2,2)x(2); trace (2,3), (2,2,2); kron (2)x(2), (2,1)x(1,2); vecdot/dot/inner (3)x(3); '
       'tensordot (2)x(2) axes 1, (2,2)x(2,2) axes 2). Thorough adds all 2-d matmul pairs with extents <= 3, batch patterns, matmulv2 rank-1 promotion and the 2-d cases of vecdot/dot/inner/tensordot. '
